@@ -484,6 +484,11 @@ func bvbin(op string, a, b *Term) *Term {
 		if op == "bvor" && a == b {
 			return a
 		}
+		if op == "bvor" {
+			if r := orDisjoint(a, b); r != nil {
+				return r
+			}
+		}
 		if op == "bvxor" && a == b {
 			return BVU(0, w)
 		}
@@ -582,6 +587,87 @@ func bvbin(op string, a, b *Term) *Term {
 		a, b = b, a
 	}
 	return mk(op, a.S, "", nil, [2]int{}, a, b)
+}
+
+// zeroMask returns the bits of t that are structurally known to be zero.
+func zeroMask(t *Term, depth int) *big.Int {
+	w := t.S.W
+	switch t.Op {
+	case "bvconst":
+		return new(big.Int).AndNot(mask(w), t.C)
+	case "zero_extend":
+		m := new(big.Int).Lsh(mask(t.P[0]), uint(t.Args[0].S.W))
+		if depth < 8 {
+			m.Or(m, zeroMask(t.Args[0], depth+1))
+		}
+		return m
+	case "concat":
+		if depth >= 8 {
+			return new(big.Int)
+		}
+		hi := new(big.Int).Lsh(zeroMask(t.Args[0], depth+1), uint(t.Args[1].S.W))
+		return hi.Or(hi, zeroMask(t.Args[1], depth+1))
+	case "bvor":
+		if depth >= 8 {
+			return new(big.Int)
+		}
+		return new(big.Int).And(zeroMask(t.Args[0], depth+1), zeroMask(t.Args[1], depth+1))
+	}
+	return new(big.Int)
+}
+
+// orDisjoint rewrites a|b as a concatenation of pieces of a and b when every
+// bit is known to be zero in at least one operand (bytes re-assembled by
+// shift-and-or): the pieces then merge back into the term they were cut from.
+func orDisjoint(a, b *Term) *Term {
+	w := a.S.W
+	if w > 4096 {
+		return nil
+	}
+	za, zb := zeroMask(a, 0), zeroMask(b, 0)
+	if za.Sign() == 0 && zb.Sign() == 0 {
+		return nil
+	}
+	if new(big.Int).Or(za, zb).Cmp(mask(w)) != 0 {
+		return nil
+	}
+	// runs from the most significant bit down; source 0: zeros, 1: a, 2: b
+	src := func(i int) int {
+		az, bz := za.Bit(i) == 1, zb.Bit(i) == 1
+		switch {
+		case az && bz:
+			return 0
+		case az:
+			return 2
+		default:
+			return 1
+		}
+	}
+	var r *Term
+	hi := w - 1
+	for hi >= 0 {
+		s0 := src(hi)
+		lo := hi
+		for lo > 0 && src(lo-1) == s0 {
+			lo--
+		}
+		var piece *Term
+		switch s0 {
+		case 0:
+			piece = BVU(0, hi-lo+1)
+		case 1:
+			piece = Extract(a, hi, lo)
+		default:
+			piece = Extract(b, hi, lo)
+		}
+		if r == nil {
+			r = piece
+		} else {
+			r = Concat(r, piece)
+		}
+		hi = lo - 1
+	}
+	return r
 }
 
 // linearCancel rewrites a±b when atoms cancel or constants merge:
